@@ -1,7 +1,10 @@
 """Engine `plot`: Reingold-Tilford coordinates (C19).
 
-case = {"cls": "Node"|"BaseNode", "tree": nested list of children lists, "par": [sibling_separation,
+case = {"cls": "Node"|"BaseNode"|"Sub", "tree": nested list of children lists, "par": [sibling_separation,
 subtree_separation, level_separation, x_offset, y_offset] (Python floats), "stratum": label,
+optional "ptype": "float"|"int"|"fraction" (Python type the five parameters are passed as), "call": "kw"|"pos"|"omit"
+(keywords / positional / parameters equal to their default omitted), "junk": True (x, y, mod, shift pre-set with junk on
+every node before the first call), "start": path of the node the call is made on (a first child; one call only),
 optional "steps": [{"edit": None | ["rev", path] | ["add", path, i] | ["del", path, i], "par": [...]}, ...]}.
 A fresh tree is built for every case and laid out with "par"; every step then (optionally changes
 the structure and) calls reingold_tilford again on the SAME tree object (Algo/Plot.v `run_steps`:
@@ -13,9 +16,9 @@ exact rationals (float.as_integer_ratio()) and compared with the exact-rational 
 import itertools
 from fractions import Fraction
 
-from ..core import cZ, clist
+from ..core import cZ, cbool, clist
 from ._base import *  # noqa
-from ._base import COMMON_TB
+from ._base import COMMON_TB, exn_code
 
 SERVES = ["C19"]
 COQ_TARGETS = ["theories/Corr/PlotCorr.vo"]
@@ -48,25 +51,115 @@ def _coords(node):
     return [node.get_attr("x"), node.get_attr("y"), [_coords(ch) for ch in node.children]]
 
 
+def pyval(v, ptype):
+    """the Python object a parameter is passed as (the Coq literal is made from the same object)"""
+    if ptype == "int":
+        return int(v)
+    if ptype == "fraction":
+        return Fraction(v).limit_denominator(1000)
+    return float(v)
+
+
+def _call(fn, node, par, ptype, style):
+    names = ["sibling_separation", "subtree_separation", "level_separation", "x_offset", "y_offset"]
+    vals = [pyval(v, ptype) for v in par]
+    if style == "pos":
+        return fn(node, *vals)
+    kw = dict(zip(names, vals))
+    if style == "omit":
+        kw = {k: v for (k, v), d in zip(kw.items(), [1.0, 1.0, 1.0, 0.0, 0.0]) if v != d}
+    return fn(node, **kw)
+
+
+class _Junk:
+    """a value nothing can be computed with"""
+
+
+def _identity(root):
+    out = []
+
+    def walk(nd):
+        out.append((getattr(nd, "node_name", None), nd.get_attr("tag"), id(nd)))
+        for ch in nd.children:
+            walk(ch)
+
+    walk(root)
+    return out
+
+
 def run_impl(prop, case):
     from bigtree.node.basenode import BaseNode
     from bigtree.node.node import Node
     from bigtree.utils.plot import reingold_tilford
 
+    class Sub(Node):
+        """a user subclass with its own attribute and method"""
+        colour = "red"
+
+        def describe(self):
+            return f"{self.node_name}:{self.colour}"
+
     counter = [0]
+    ptype = case.get("ptype", "float")
+    style = case.get("call", "kw")
+
+    if case["cls"] == "BinaryNode":
+        # known finding K5: "btree" = [left, right] slots (None = empty), a leaf is [None, None]
+        from bigtree.node.binarynode import BinaryNode
+
+        def bbuild(bt):
+            counter[0] += 1
+            name = counter[0]
+            left = bbuild(bt[0]) if bt[0] is not None else None
+            right = bbuild(bt[1]) if bt[1] is not None else None
+            return BinaryNode(name, left=left, right=right)
+
+        def bshape(nd):
+            return [bshape(ch) for ch in nd.children if ch is not None]
+
+        def bcoords(nd):
+            return [nd.get_attr("x"), nd.get_attr("y"), [bcoords(ch) for ch in nd.children if ch is not None]]
+
+        root = bbuild(case["btree"])
+        pre = bshape(root)
+        try:
+            _call(reingold_tilford, root, case["par"], ptype, style)
+        except Exception as e:      # the class is the observation (K5: AttributeError)
+            return {"pre": pre, "raised": exn_code(e)}
+        return {"pre": pre, "last": pre, "out": bcoords(root)}
+
+    def fresh(parent=None):
+        counter[0] += 1
+        if case["cls"] == "BaseNode":
+            nd = BaseNode(parent=parent)
+        else:
+            nd = (Sub if case["cls"] == "Sub" else Node)("n%d" % counter[0], parent=parent)
+        nd.set_attrs({"tag": counter[0]})
+        return nd
 
     def build(t, parent):
-        counter[0] += 1
-        nd = Node("n%d" % counter[0], parent=parent) if case["cls"] == "Node" else BaseNode(parent=parent)
+        nd = fresh(parent)
         for k in t:
             build(k, nd)
         return nd
 
     root = build(case["tree"], None)
+    if case.get("junk"):
+        junk = ["junk", None, _Junk(), -1.0e9, [1, 2], "0"]
+        k = 0
+        for nd in [root] + list(root.descendants):
+            nd.set_attrs({"x": junk[k % 6], "y": junk[(k + 1) % 6], "mod": junk[(k + 2) % 6], "shift": junk[(k + 3) % 6]})
+            k += 1
     pre = _shape(root)
-    ss, sts, ls, xo, yo = case["par"]
-    reingold_tilford(root, sibling_separation=ss, subtree_separation=sts, level_separation=ls,
-                     x_offset=xo, y_offset=yo)
+    start = root
+    for j in case.get("start", []):
+        start = start.children[j]
+    before = _identity(root)
+    res = _call(reingold_tilford, start, case["par"], ptype, style)
+    if res is not None:
+        raise AssertionError("reingold_tilford returned a value")
+    if _identity(root) != before or _shape(root) != pre:
+        raise AssertionError("reingold_tilford changed the structure, the names or a user attribute of the tree")
     for step in case.get("steps", []):
         ed = step.get("edit")
         if ed:
@@ -77,17 +170,18 @@ def run_impl(prop, case):
             if ed[0] == "rev":
                 ch.reverse()
             elif ed[0] == "add":
-                counter[0] += 1
-                ch.insert(ed[2], Node("n%d" % counter[0]) if case["cls"] == "Node" else BaseNode())
+                ch.insert(ed[2], fresh())
             elif ed[0] == "del":
                 ch.pop(ed[2])
             else:
                 raise ValueError(ed[0])
             nd.children = ch
-        ss, sts, ls, xo, yo = step["par"]
-        reingold_tilford(root, sibling_separation=ss, subtree_separation=sts, level_separation=ls,
-                         x_offset=xo, y_offset=yo)
-    return {"pre": pre, "last": _shape(root), "out": _coords(root)}
+        before = _identity(root)
+        shape_before = _shape(root)
+        _call(reingold_tilford, start, step["par"], ptype, style)
+        if _identity(root) != before or _shape(root) != shape_before:
+            raise AssertionError("reingold_tilford changed the structure, the names or a user attribute of the tree")
+    return {"pre": pre, "last": _shape(start), "out": _coords(start)}
 
 
 # ---------------------------------------------------------------------------------------------
@@ -95,9 +189,12 @@ def run_impl(prop, case):
 
 
 def _cq(x):
-    if isinstance(x, bool) or not isinstance(x, (int, float)):
+    if isinstance(x, bool) or not isinstance(x, (int, float, Fraction)):
         raise TypeError(f"coordinate is not a number: {x!r}")
-    num, den = float(x).as_integer_ratio()     # raises for nan / inf
+    if isinstance(x, Fraction):
+        num, den = x.numerator, x.denominator
+    else:
+        num, den = float(x).as_integer_ratio()     # raises for nan / inf
     return f"{cZ(num)} {den}"
 
 
@@ -110,8 +207,8 @@ def _cout(o):
     return f"c {_cq(x)} {_cq(y)} " + clist(f"({_cout(k)})" for k in ks)
 
 
-def _cpar(par):
-    return "PR " + " ".join(f"(q {_cq(v)})" for v in par)
+def _cpar(par, ptype="float"):
+    return "PR " + " ".join(f"(q {_cq(pyval(v, ptype))})" for v in par)
 
 
 def _cpath(path):
@@ -131,8 +228,12 @@ def _cedit(ed):
 
 
 def emit(prop, case, obs):
-    steps = clist(f"({_cedit(st.get('edit'))}, {_cpar(st['par'])})" for st in case.get("steps", []))
-    return f"PC ({_cpar(case['par'])}) ({_ctree(obs['pre'])}) {steps} ({_cout(obs['out'])})"
+    pt = case.get("ptype", "float")
+    steps = clist(f"({_cedit(st.get('edit'))}, {_cpar(st['par'], pt)})" for st in case.get("steps", []))
+    out = _cout(obs["out"]) if "out" in obs else "c (0)%Z 1 (0)%Z 1 []"
+    raised = "None" if obs.get("raised") is None else f"(Some {int(obs['raised'])}%nat)"
+    return (f"PC ({_cpar(case['par'], pt)}) ({_ctree(obs['pre'])}) {_cpath(case.get('start', []))} {steps} "
+            f"({out}) {cbool(case['cls'] == 'BinaryNode')} {raised}")
 
 
 def last_par(case):
@@ -176,7 +277,7 @@ def _same_shape(t, o):
 
 def clauses(case, obs):
     """{clause: bool} for the five clauses + shape, on the implementation's output."""
-    ss, sts, ls, xo, yo = [Fraction(v) for v in last_par(case)]
+    ss, sts, ls, xo, yo = [Fraction(pyval(v, case.get("ptype", "float"))) for v in last_par(case)]
 
     def conv(o):
         return [Fraction(o[0]), Fraction(o[1]), [conv(k) for k in o[2]]]
@@ -202,10 +303,14 @@ def clauses(case, obs):
 def matches_finding(prop, entry, case, obs, flags):
     """K1-C19: the case fails *only* the cousin-separation clause (of the last layout), and the
     implementation's coordinates are the modelled ones (Coq reported no disagreement: flags == F_PROPFAIL).
-    Earlier layouts / structural changes do not matter: layouts are history-free since F10."""
-    if entry.get("id") != "K1-C19" or flags != 2:
+    Earlier layouts / structural changes do not matter: layouts are history-free since F10.
+    K5-C19: the nodes are BinaryNode objects, the call raised AttributeError, and that is what the model
+    predicts (flags == F_PROPFAIL: no coordinates, no disagreement)."""
+    if flags != 2 or not isinstance(obs, dict):
         return False
-    if not isinstance(obs, dict) or "out" not in obs:
+    if entry.get("id") == "K5-C19":
+        return case.get("cls") == "BinaryNode" and obs.get("raised") == 3 and "out" not in obs
+    if entry.get("id") != "K1-C19" or case.get("cls") == "BinaryNode" or "out" not in obs:
         return False
     try:
         cl = clauses(case, obs)
@@ -268,6 +373,32 @@ def corpus(prop):
                               "steps": [{"edit": ["add", [0], 1], "par": u}], "stratum": "corpus"}),
     ]
     out += [
+        # how the call is made: ints, Fractions, positional, defaults omitted, junk attributes, subclass
+        ("ints-positional", {"cls": "Node", "tree": DOC_TREE, "par": [2.0, 1.0, 3.0, 1.0, 2.0], "ptype": "int",
+                             "call": "pos", "stratum": "corpus"}),
+        ("fractions", {"cls": "Node", "tree": K1_TREE, "par": [1.0 / 3.0, 0.5, 2.0, 0.0, 1.0 / 7.0], "ptype": "fraction",
+                       "stratum": "corpus"}),
+        ("defaults-omitted", {"cls": "Sub", "tree": DOC_TREE, "par": [1.0, 2.0, 1.0, 0.0, 0.0], "call": "omit",
+                              "stratum": "corpus"}),
+        ("junk-attributes", {"cls": "Node", "tree": [[], [[], []], [[[], []]]], "par": u, "junk": True,
+                             "steps": [{"edit": None, "par": v}], "stratum": "corpus"}),
+        # x_offset cancels the (negative) preliminary x of an inner node / a mod exactly; y_offset cancels a level
+        ("offset-cancels", {"cls": "Node", "tree": [[], [[], [], [], [], []]], "par": [1.0, 1.0, 1.0, 1.0, -1.0],
+                            "stratum": "corpus"}),
+        ("offset-negative", {"cls": "Node", "tree": DOC_TREE, "par": [1.0, 1.0, 2.0, -1.25, -4.0], "stratum": "corpus"}),
+        ("fanout-12", {"cls": "Node", "tree": [[], [[], []], [], [], [], [[]], [], [], [], [[], [], []], [], []],
+                       "par": [1.0, 1.5, 1.0, 0.0, 0.0], "stratum": "corpus"}),
+        # the call is made on a first child instead of the root
+        ("subtree-start", {"cls": "Node", "tree": [[[], [[], []]], [[]], []], "par": [1.0, 1.0, 2.0, 0.5, 0.5],
+                           "start": [0], "stratum": "corpus"}),
+        ("subtree-start-deep", {"cls": "Node", "tree": [[], [[[], [], []], []]], "par": u, "start": [1, 0],
+                                "stratum": "corpus"}),
+        # known finding K5: every BinaryNode tree (children holds None slots) makes the call raise AttributeError
+        ("K5-binary-single", {"cls": "BinaryNode", "btree": [None, None], "tree": [], "par": u, "stratum": "corpus"}),
+        ("K5-binary-left-only", {"cls": "BinaryNode", "btree": [[None, None], None], "tree": [[]], "par": u,
+                                 "stratum": "corpus"}),
+        ("K5-binary-full", {"cls": "BinaryNode", "btree": [[None, None], [None, None]], "tree": [[], []], "par": v,
+                            "stratum": "corpus"}),
         # regression for F10 (stale `shift` read back): a leaf appended next to a sibling that was shifted
         ("F10-append-leaf", {"cls": "Node", "tree": K4_TREE, "par": u,
                              "steps": [{"edit": ["add", [], 2], "par": u}], "stratum": "corpus"}),
@@ -357,6 +488,20 @@ def gen_zigzag(rng):
     return sibs if rng.random() < 0.6 else [sibs]
 
 
+def gen_verywide(rng):
+    """a node with 10-12 children (the root, or a child of the root), a few of which carry small subtrees"""
+    f = rng.randint(10, 12)
+    kids = [[] for _ in range(f)]
+    for _ in range(rng.randint(0, 4)):
+        kids[rng.randrange(f)] = rng.choice([[[]], [[], []], [[], [], []], [[[]]], [[], [[], []]]])
+    r = rng.random()
+    if r < 0.6:
+        return kids
+    if r < 0.8:
+        return [kids, [[], []]]
+    return [[[]], kids]
+
+
 def gen_negwide(rng):
     """a node with 2-7 children one of which (not the first) carries a subtree so wide that its
     left-most leaf, not the left-most leaf of the tree, has the smallest preliminary x"""
@@ -431,6 +576,14 @@ def gen_params(rng, kind):
     if kind == "nondyadic":
         return [rng.choice(NONDYADIC), rng.choice(NONDYADIC), rng.choice(NONDYADIC),
                 rng.choice(OFFS_ND), rng.choice(OFFS_ND)]
+    if kind == "cancel":
+        # offsets that cancel preliminary coordinates / accumulated mods exactly (x values of a layout are
+        # multiples of half the separations; y values multiples of the level separation): 0-sums in the
+        # second and third pass, negative offsets included
+        ss, sts, ls = rng.choice([0.5, 1.0, 1.0, 2.0]), rng.choice([0.5, 1.0, 1.0, 1.5]), rng.choice([0.5, 1.0, 2.0])
+        xo = -rng.choice([ss, sts, 0.5]) * rng.randint(0, 8) / 2
+        yo = -ls * rng.choice([0, 0, 1, 2, 3]) if rng.random() < 0.7 else rng.choice(OFFS)
+        return [ss, sts, ls, xo, yo]
     # mixed
     pool = DYADIC + NONDYADIC
     return [rng.choice(pool), rng.choice(pool), rng.choice(pool), rng.choice(OFFS + OFFS_ND), rng.choice(OFFS)]
@@ -460,7 +613,7 @@ EXH_PARAMS = [
 
 
 def generate(prop, rng, tier):
-    count = {"quick": 2200, "thorough": 24000, "search": 5000}[tier]
+    count = {"quick": 2000, "thorough": 24000, "search": 5000}[tier]
     if tier == "thorough":
         for n in range(1, 8):
             for t in all_trees(n):
@@ -474,8 +627,8 @@ def generate(prop, rng, tier):
                 yield "exhaustive<=6", {"cls": "Node", "tree": t, "par": list(EXH_PARAMS[k % len(EXH_PARAMS)]),
                                         "stratum": "exhaustive"}
                 k += 1
-    shapes = ["wide", "deep", "mixed", "mixed", "binary", "comb", "comb", "zigzag", "zigzag", "negwide", "sandwich", "sandwich", "path", "star"]
-    pkinds = ["unit", "dyadic", "dyadic", "dyadic", "nondyadic", "mixed"]
+    shapes = ["wide", "deep", "mixed", "mixed", "binary", "comb", "comb", "zigzag", "zigzag", "negwide", "sandwich", "sandwich", "verywide", "path", "star"]
+    pkinds = ["unit", "dyadic", "dyadic", "dyadic", "nondyadic", "mixed", "cancel"]
     for i in range(count):
         shape = rng.choice(shapes)
         if shape in ("path", "star") and rng.random() < 0.8:
@@ -497,12 +650,25 @@ def generate(prop, rng, tier):
             t = gen_sandwich(rng)
             while tsize(t) > 24:
                 t = gen_sandwich(rng)
+        elif shape == "verywide":
+            t = gen_verywide(rng)
         else:
             t = gen_tree(rng, shape, nmax)
         pk = rng.choice(pkinds)
-        case = {"cls": "Node" if rng.random() < 0.8 else "BaseNode", "tree": t,
+        case = {"cls": rng.choice(["Node"] * 13 + ["BaseNode"] * 4 + ["Sub"] * 3), "tree": t,
                 "par": gen_params(rng, pk), "stratum": f"{shape}/{pk}"}
         label = f"{shape}/{pk}"
+        # how the parameters are passed: Python type, keywords / positional / defaults omitted
+        r = rng.random()
+        if r < 0.15:
+            case["ptype"] = "int"
+            case["par"] = [float(rng.choice([1, 1, 2, 3])), float(rng.choice([1, 1, 2, 3])), float(rng.choice([1, 2, 3])),
+                           float(rng.choice([0, 0, 1, 2, -1])), float(rng.choice([0, 0, 1, -2]))]
+        elif r < 0.25:
+            case["ptype"] = "fraction"
+        case["call"] = rng.choice(["kw", "kw", "kw", "pos", "omit"])
+        if rng.random() < 0.15:
+            case["junk"] = True
         if rng.random() < 0.3:
             # the same tree object is laid out again (once or twice), with the same or other parameters, and
             # in half of the cases after a structural change (leaf inserted / appended, children reversed,
@@ -517,8 +683,17 @@ def generate(prop, rng, tier):
                     edited = edited or ed is not None
                 par = list(case["par"]) if rng.random() < 0.3 else gen_params(rng, rng.choice(pkinds))
                 steps.append({"edit": ed, "par": par})
+            if case.get("ptype") == "int":
+                for st in steps:
+                    st["par"] = [float(round(v)) if round(v) >= 1 or i >= 3 else 1.0 for i, v in enumerate(st["par"])]
             case["steps"] = steps
             case["stratum"] = label = ("relayout-edited:" if edited else "rerun:") + f"{shape}/{pk}"
+        elif rng.random() < 0.1:
+            # the call is made on a node that is not the root: a first child (at any depth)
+            cands = [q for q, _ in _paths(t) if q and q[-1] == 0]
+            if cands:
+                case["start"] = rng.choice(cands)
+                case["stratum"] = label = f"subtree-start:{shape}/{pk}"
         yield label, case
 
 
@@ -583,8 +758,13 @@ def shrink_candidates(prop, case):
             c = dict(case)
             c["steps"] = steps[:k] + [{"edit": st.get("edit"), "par": [1.0, 1.0, 1.0, 0.0, 0.0]}] + steps[k + 1:]
             yield c
-    if has_edit(case):
-        return          # paths of an edit refer to the tree as it is
+    for key in ("junk", "ptype", "call"):
+        if case.get(key) not in (None, "kw", "float"):
+            c = dict(case)
+            del c[key]
+            yield c
+    if has_edit(case) or case.get("start"):
+        return          # paths refer to the tree as it is
     for v in _drop_variants(case["tree"]):
         c = dict(case)
         c["tree"] = v
@@ -621,7 +801,12 @@ def rule(prop):
             "parameter sets (thorough)) x positive separations (unit / dyadic / non-dyadic / mixed) and non-negative "
             "offsets; about 30 % of the generated cases lay the same tree object out again once or twice (same or other "
             "parameters), half of those after a structural change (leaf inserted / appended / removed, children "
-            "reversed); non-trivial = >= 4 nodes, some fan-out >= 2 and depth >= 3; distinct by canonical JSON hash")
+            "reversed); ~10 % of the single-call cases make the call on a first child instead of the root; parameters are "
+            "passed as floats / ints (15 %) / Fractions (10 %), by keyword / positionally / with defaults omitted; 15 % of the "
+            "cases pre-set x, y, mod, shift with junk values; classes Node / BaseNode / a user subclass; strata verywide "
+            "(fan-out 10-12) and cancel (x_offset / y_offset, also negative, that cancel preliminary coordinates, mods or "
+            "levels exactly); the harness also fails a case when the call returns a value or changes structure, names or a "
+            "user attribute; non-trivial = >= 4 nodes, some fan-out >= 2 and depth >= 3; distinct by canonical JSON hash")
 
 
 def sample(prop, case, obs):
@@ -630,6 +815,9 @@ def sample(prop, case, obs):
 
 def explain(prop, case, obs, flags):
     from ._base import explain as base
+    if isinstance(obs, dict) and "raised" in obs:
+        return ("reingold_tilford raised (exception code %s) instead of writing coordinates" % obs["raised"]
+                + ("" if flags & 1 else "; the model predicts exactly this"))
     if isinstance(obs, dict) and "out" in obs and flags & 2:
         try:
             cl = clauses(case, obs)
@@ -649,7 +837,16 @@ def partial_clauses(prop):
             "along right-most children-with-children reaches a's deepest level and the walk from b along left-most "
             "children-with-children reaches b's deepest level; C19_cousins_partial2 additionally allows nodes with any "
             "number of non-leaf children all of whose grandchildren are leaves; C19_cousins_failure_shape is the "
-            "contrapositive (every cousin failure happens on a tree outside that guard)"]
+            "contrapositive (every cousin failure happens on a tree outside that guard)",
+            "NOT EXERCISED / NOT COMPARED (accepted): (1) BinaryNode trees: reingold_tilford raises AttributeError on every "
+            "BinaryNode tree, even a single node (children contain None): known finding K5-C19, three corpus witnesses "
+            "(modelled: raises), not generated; (2) a start node that "
+            "has a left sibling (reads x / subtrees of nodes outside the subtree, TypeError on a fresh tree, writes shift on "
+            "the siblings): outside the model (rt_at = None), not generated; DAGNode is not a tree; (3) the values of the "
+            "attributes mod and shift left on the nodes are not compared (only x and y are coordinates); (4) differences "
+            "below 1e-9 in x or y are invisible (float tolerance); numpy / Decimal parameters, nan / inf, non-positive "
+            "separations (F_SKIP, 0 cases per run) are not generated; (5) trees above 26 nodes / depth 8, removal of a "
+            "non-leaf between two layouts, concurrent mutation are not generated; (6) plot_tree is out of scope"]
 
 
 def trusted_base(prop):
